@@ -1530,6 +1530,8 @@ class Model(Object):
             interface.Constraint.clone(c, model=new_model.solver)
             for c in right.constraints
             if c.name not in new_model.constraints
+            # (mass balances of right's metabolites are not custom constraints)
+            and c.name not in right.metabolites
         ]
         new_model.add_cons_vars(new_cons, sloppy=True)
         new_model.objective = dict(
